@@ -242,6 +242,18 @@ func C17(rep *ev.Reporter, tier string) {
 		for _, m := range c17Mutants(d, tier) {
 			jobs = append(jobs, job{di, m})
 		}
+		// two faults in one text (on one line, when the document is a single line): a stray character before the first
+		// rule / before the last rule, then every token deletion and duplication of the rest
+		// (the second fault is made first: the lexer that splits the text into tokens stops at an illegal character)
+		for _, m := range c17Mutants(d, "quick") {
+			if !strings.HasPrefix(m.class, "delete:") && !strings.HasPrefix(m.class, "duplicate:") {
+				continue
+			}
+			jobs = append(jobs, job{di, c17Mutant{"$ " + m.text, "two-faults:" + m.class}})
+			if i := strings.LastIndex(m.text, "rule "); i > 0 {
+				jobs = append(jobs, job{di, c17Mutant{m.text[:i] + "$ " + m.text[i:], "two-faults:" + m.class}})
+			}
+		}
 	}
 	var n, accepted, rejected, pairChecked int64
 	var mu sync.Mutex
